@@ -113,7 +113,9 @@ func (f *localFileEntryFactory) Create(name string, state FileState) (FileEntry,
 	if name != filepath.Clean(name) {
 		return nil, ErrInvalidName
 	}
-	if strings.HasPrefix(name, "/") || strings.HasSuffix(name, "/") || strings.HasPrefix(name, "../") {
+	// A cleaned relative name escapes the state directory iff it is ".." or starts with "../".
+	if strings.HasPrefix(name, "/") || strings.HasSuffix(name, "/") ||
+		name == ".." || strings.HasPrefix(name, "../") {
 		return nil, ErrInvalidName
 	}
 	return newLocalFileEntry(state, name, f.GetRelativePath(name)), nil
